@@ -1,0 +1,8 @@
+//go:build verif
+
+package cmd
+
+import "context"
+
+// VerifGcStaleCheckpoint runs one pass of the stale checkpoint collector (normally driven by a timer / the http api).
+func (sc *SyncerCmd) VerifGcStaleCheckpoint(ctx context.Context) { sc.gcStaleCheckpoint(ctx) }
